@@ -155,6 +155,7 @@ def realMul (x y : NV) : NV :=
   if nvIsNan x || nvIsNan y then .fv (.nan false)
   else if nvIsInf x then (if nvIsZero y then .fv (.nan false) else .fv (.inf (nvSign x != nvSign y)))
   else if nvIsInf y then (if nvIsZero x then .fv (.nan false) else .fv (.inf (nvSign x != nvSign y)))
+  else if nvIsZero x || nvIsZero y then .fv (.fin ⟨nvSign x != nvSign y, 0, 0⟩)   -- keeps the sign of a zero factor
   else match x, y with
     | .fv (.fin a), .fv (.fin b) => .fv (.fin (a.mul b))
     | _, _ => let r := ratMul (nvRat x) (nvRat y); .frac r.1 r.2
@@ -311,7 +312,7 @@ def remainderRF (x y : RF) : RF :=
   else ⟨!x.s, e, cy - r⟩
 
 /-- `MPFREngine._mod` on two finite non-zero values: floor of the round-to-odd quotient at
-`n = −1`, then the exact `x − q·y` with `Float` arithmetic -/
+`n = −1`, then the exact `x − q·y` with `Float` arithmetic; a zero remainder takes the sign of `y` -/
 def modFin (x y : RF) : Except Err FV :=
   match mpfrDivFin x y none (some (-1)) with
   | .error e => .error e
@@ -321,7 +322,10 @@ def modFin (x y : RF) : Except Err FV :=
     | .ok (qr, _) =>
       match qr.toInt? with
       | none => .error .valueError
-      | some q => .ok (FV.add (.fin x) (FV.neg (FV.mul (.fin y) (.fin (RF.ofInt q)))))
+      | some q =>
+        let r := FV.add (.fin x) (FV.neg (FV.mul (.fin y) (.fin (RF.ofInt q))))
+        -- an exact multiple: the zero remainder takes the sign of `y` (Python's `%`)
+        .ok (if r.isZero then r.withSign y.s else r)
   | .ok _ => .error .valueError     -- `math.floor` of a non-finite Float (unreachable)
 
 /-- MPFR engine on `Float` operands: IEEE special-value arms as MPFR (toward zero) gives them,
